@@ -146,8 +146,6 @@ func (g *c08gen) item(kind byte) []byte {
 	return g.bytesItem()
 }
 
-func u64p(v uint64) *uint64 { return &v }
-
 func (g *c08gen) context(k *vmCase) {
 	r := g.c.Rng
 	k.vmVersion = 1
